@@ -72,6 +72,9 @@ func c11Case(store eb.EventStore, ids []int, offs []eb.Offset, start, batch int,
 			f = "cancel"
 			cancel()
 		}
+		if fault == "nested" && k == at { // a second replay of the same store while this one is in progress
+			bus.Replay(context.Background(), eb.OffsetOldest, func(*eb.StoredEvent) error { return nil })
+		}
 		emit(map[string]any{"e": "cb", "id": doc.ID, "fault": f})
 		return ret
 	})
@@ -149,6 +152,9 @@ func c11(r *core.Run) {
 					faults := []fl{{"none", 0}, {"precancel", 0}}
 					for at := 1; at <= n-start; at++ {
 						faults = append(faults, fl{"cberr", at}, fl{"cbcancel", at})
+						if at <= 2 {
+							faults = append(faults, fl{"nested", at})
+						}
 						if streams {
 							faults = append(faults, fl{"storeelem", at})
 						}
